@@ -117,6 +117,7 @@ struct Case {
   int layout, dir, fam, cexp;
   uint64_t idx, seed;
   int amode;
+  int xscale = 0;     // 0: scale 2^cexp with |cexp|<=400; 1: unit impulse at 2^-1018..2^-960; 2: at 2^+960..2^+1024 ("every finite input")
   uint64_t tnum = 1;  // entry power tnum / 2^tlog (1/4: the full transform)
   unsigned tlog = 2;
 };
@@ -137,7 +138,15 @@ static void gen_input(const Case& cs, Rng& r, std::vector<double>& re, std::vect
     case 1: a = 0; break;
     default: break;
   }
-  const int e = cs.cexp;
+  int e = cs.cexp;
+  // extreme scales only for the impulse family: every partial sum of the transform is then a single term, so the exact outputs and all
+  // intermediates stay finite and (at the small end) normal or nearly so -- the 2^-53 relative model is then still meaningful up to the
+  // absolute underflow floor that run_case adds
+  if (cs.fam == IMPULSE && cs.xscale == 1) e = -1018 + (int)(cs.idx % 59);
+  if (cs.fam == IMPULSE && cs.xscale == 2) {
+    e = 960 + (int)(cs.idx % 65);  // up to 2^1024 * [0.5,1): the top of the double range
+    if (e >= 1022) { if (fabs(a) >= fabs(b)) b = 0; else a = 0; }  // keep the modulus (= every exact output's modulus) below DBL_MAX
+  }
   switch (cs.fam) {
     case IMPULSE: {
       uint64_t i = cs.idx % m;
@@ -218,6 +227,8 @@ static void run_case(Ctx& c, const Case& cs, const std::string& impl, const std:
   c.nontrivial = m >= 2 && nz >= 2;
   c.cls("k:" + std::to_string(k));
   c.cls(std::string("fam:") + fam_name(cs.fam));
+  if (cs.fam == IMPULSE && cs.xscale == 1) c.cls("scale:2^-1018..2^-960");
+  if (cs.fam == IMPULSE && cs.xscale == 2) c.cls("scale:2^960..2^1024");
   c.cls("impl:" + impl);
   c.cls("at:" + impl + ":k" + std::to_string(k));
   c.cls(cs.dir == FWD ? "dir:fft" : "dir:ifft");
@@ -298,7 +309,9 @@ static void run_case(Ctx& c, const Case& cs, const std::string& impl, const std:
     if (!(q <= worst)) worst = q, wj = j;  // also catches NaN
   }
   const ld err = fo::norm2(diff);
-  const ld bound = (tol_stmt + tol_orc) * nex;
+  // absolute floor: each of the <= 8*log2(2m) roundings per output may be a subnormal rounding of up to 2^-1075 (only matters at 2^-1000 scales)
+  const ld tol_abs = sqrtl((ld)m) * 8 * L2 * 0x1p-1074L;
+  const ld bound = (tol_stmt + tol_orc) * nex + tol_abs;
   const double ratio = (double)(err / (tol_stmt * nex));
   if (!(err <= bound)) {
     fo::C o = at(cs.layout, m, d1, wj);
@@ -310,7 +323,7 @@ static void run_case(Ctx& c, const Case& cs, const std::string& impl, const std:
   for (int s = 0; s < 2; ++s) {
     fo::C o = at(cs.layout, m, d1, spots[s]);
     ld d = fo::cabsl_(fo::csub(o, hv[s]));
-    if (!(d <= tol_stmt * npars + he[s]))
+    if (!(d <= tol_stmt * npars + he[s] + 8 * L2 * 0x1p-1074L))
       return c.failf("%s m=%llu (%s): output %llu = (%.17g, %.17g) but Horner evaluation of the input polynomial gives "
                      "(%.20Lg, %.20Lg): |diff| %.4Lg > %.4Lg",
                      what.c_str(), (unsigned long long)m, impl.c_str(), (unsigned long long)spots[s], (double)o.re, (double)o.im,
@@ -389,11 +402,12 @@ std::vector<Sub> vh_subs() {
     Sub s;
     s.name = layout == REIM ? "reim_api" : "cplx_api";
     s.fields = {{"k", 0, 16}, {"dir", 0, 1}, {"cfg", 0, 1}, {"fam", 0, NFAM - 1}, {"cexp", -400, 400}, {"idx", 0, 65535},
-                {"amode", 0, 2}, F_SEED};
+                {"amode", 0, 2}, F_SEED, {"xscale", 0, 5}};
     s.run = [layout](const Vals& v, Ctx& c) {
       Case cs;
       cs.k = (unsigned)v[0], cs.layout = layout, cs.dir = (int)v[1], cs.fam = (int)v[3], cs.cexp = (int)v[4];
       cs.idx = (uint64_t)v[5], cs.amode = (int)v[6], cs.seed = (uint64_t)v[7];
+      cs.xscale = v[8] >= 4 ? (int)v[8] - 3 : 0;
       const unsigned mask = v[2] ? spq::GENERIC : spq::FULL;
       const Precomp& pc = get_precomp(layout, cs.dir, 1ull << cs.k, mask);
       c.cls(mask ? "cfg:generic" : "cfg:full");
